@@ -131,5 +131,15 @@ example : takeRateNewTotal (sample 50000000000000000 1000000) 3 = some 857375 :=
 /-- a one-unit (dust) asset at 1%: nothing can be deducted however many intervals elapse … -/
 theorem dust_is_never_deducted : ∀ n : Nat, n ≤ 4 → takeRateNewTotal (sample 10000000000000000 1) n = none := by decide
 
+/-- "shrinks every position": lowering an asset's staked total — all a take-rate deduction writes besides the clock — never
+    raises what `GetDelegationTokens` reports for any position in that asset on any validator, through every rounding of
+    the 18-digit arithmetic (AllianceProofs/ValueMono) -/
+theorem take_rate_never_raises_a_position_value (shares : Dec) (info : ValInfo) (a : Asset) (T' : Int) (x : Int)
+    (hs : 0 ≤ shares) (htds : 0 ≤ totalDelSharesWithDenom info a.denom) (hvs : 0 ≤ valSharesWithDenom info a.denom)
+    (hTVS : 0 ≤ a.totalValShares) (hT' : 0 ≤ T') (hle : T' ≤ a.totalTokens)
+    (h : delegationTokensWithShares shares info a = .ok x) :
+    ∃ x', delegationTokensWithShares shares info { a with totalTokens := T' } = .ok x' ∧ x' ≤ x ∧ 0 ≤ x' :=
+  position_value_mono_in_total shares info a T' x hs htds hvs hTVS hT' hle h
+
 end C09
 end Alliance
